@@ -394,6 +394,11 @@ func (p *Parser) parseGroupedExpression() ast.Node {
 		if el == nil {
 			return nil
 		}
+		for _, e := range el {
+			if e == nil { // e.g. `(a,,b)=>1`, error already recorded by parseExpression.
+				return nil
+			}
+		}
 		if !p.expectPeek(token.LAMBDA) {
 			return nil
 		}
